@@ -55,7 +55,13 @@ initadd(struct initparser *p, struct init *new)
 			while (old && old->end * 8 - old->bits.after <= new->end * 8 - new->bits.after);
 			break;
 		}
-		/* `old` covers `new`, keep looking */
+		/* `old` covers `new` */
+		if (old->expr->type->prop & PROPSCALAR) {
+			/* a larger scalar at the same place is another member of a union: `new` replaces it */
+			old = old->next;
+			break;
+		}
+		/* an aggregate or string of which `new` overrides a part, keep looking */
 	}
 	new->next = old;
 	*init = new;
